@@ -406,6 +406,72 @@ async fn run_lib_replier(addr: SocketAddr, certs: Certs, id: u64, seed: u64, cal
     Ok((ok, wrong, failed))
 }
 
+
+/// clones taken from a requestor that has already been used (after k calls), then used concurrently with it
+async fn run_clone_after_use(addr: SocketAddr, certs: Certs, id: u64, timeout_ms: u64) -> std::result::Result<(Vec<Call>, u64, u64), String> {
+    let topic = unique_topic("c04u", id);
+    let log = Arc::new(Mutex::new(ReplierLog { received: 0, sent: 0, prompt_sent: HashMap::new() }));
+    let (_raw, rep_task) = spawn_replier(addr, &certs, &topic, None, timeout_ms, log.clone()).await.map_err(|e| format!("raw replier: {e}"))?;
+    let client = lib_client(&addr.to_string(), &certs, None).await.map_err(|e| format!("connect: {e}"))?;
+    let t0 = Instant::now();
+    let mut calls = vec![];
+    let mut handles: Vec<_> = vec![];
+    let mut rq = client.requestor(&topic).with_request_encoder(StringCodec).with_reply_decoder(StringCodec).with_request_timeout(timeout_ms).map_err(|e| e.to_string())?.open().await.map_err(|e| format!("open requestor: {e}"))?;
+    let mut est = false;
+    for n in 0..40 {
+        if let Ok(v) = rq.request(format!("sentinel-{};mode=now;", n)).await {
+            if v.starts_with("re:sentinel") {
+                est = true;
+                break;
+            }
+        }
+        tokio::time::sleep(Duration::from_millis(50)).await;
+    }
+    if !est {
+        return Err("precondition not reached: sentinel never answered".into());
+    }
+    // use it for a while (k calls, k not a round number), clone, use both, clone again …
+    for gen in 0..4usize {
+        for i in 0..(3 + gen * 2) {
+            let p = format!("warm{}#{};mode=now;", gen, i);
+            let _ = rq.request(p).await;
+        }
+        handles.push(rq.clone());
+    }
+    handles.push(rq);
+    let mut tasks = vec![];
+    for (h, mut c) in handles.into_iter().enumerate() {
+        tasks.push(tokio::spawn(async move {
+            let mut out = vec![];
+            for i in 0..12 {
+                // short delays at the replier keep several calls of different handles in flight at once;
+                // every fourth call is answered late (after the caller timed out)
+                let mode = if i % 4 == 3 { Mode::Late15 } else { Mode::Short };
+                let payload = format!("handle{}#{};mode={};", h, i, mode.name());
+                let start = t0.elapsed().as_millis();
+                let r = tokio::time::timeout(Duration::from_millis(timeout_ms + 20_000), c.request(payload.clone())).await;
+                let end = t0.elapsed().as_millis();
+                let (result, timed_out) = match r {
+                    Ok(Ok(v)) => (Ok(v), false),
+                    Ok(Err(e)) => {
+                        let t = is_timeout(&e);
+                        (Err(e.to_string()), t)
+                    }
+                    Err(_) => (Err("HUNG: request() did not return within timeout + 20 s".into()), false),
+                };
+                out.push(Call { id: payload, mode, requestor: format!("handle{}", h), start_ms: start, end_ms: end, result, timed_out });
+            }
+            out
+        }));
+    }
+    for t in tasks {
+        calls.extend(t.await.map_err(|e| format!("harness task: {e}"))?);
+    }
+    rep_task.abort();
+    let l = log.lock().unwrap();
+    Ok((calls, l.received, l.sent))
+}
+
 pub fn run(rep: &mut StageReport, tier: &str, seed: u64) {
     let thorough = tier == "thorough";
     let rt = runtime(8);
@@ -473,6 +539,13 @@ pub fn run(rep: &mut StageReport, tier: &str, seed: u64) {
                 Err(_) => lib_replier_inconclusive = Some("watchdog: library-replier scenario did not finish in 500 s".into()),
             }
         }
+        for g in 0..(if thorough { 6usize } else { 2 }) {
+            let r = tokio::time::timeout(Duration::from_secs(600), run_clone_after_use(server.addr, certs.clone(), 2000 + g as u64, 400)).await;
+            out.push((2000 + g as u64, match r {
+                Ok(x) => x,
+                Err(_) => Err("watchdog: clone-after-use scenario did not finish within 600 s".into()),
+            }));
+        }
         for g in 0..n_gen_scenarios {
             let tmo = if g % 2 == 0 { 300 } else { 500 };
             let r = tokio::time::timeout(Duration::from_secs(600), run_generations(server.addr, certs.clone(), 1000 + g as u64, gens_per, tmo)).await;
@@ -497,7 +570,7 @@ pub fn run(rep: &mut StageReport, tier: &str, seed: u64) {
                 continue;
             }
         };
-        let timeout_ms = sc.map(|s| s.timeout_ms).unwrap_or(if sid % 2 == 0 { 300 } else { 500 }) as u128;
+        let timeout_ms = sc.map(|s| s.timeout_ms).unwrap_or(if sid >= 2000 { 400 } else if sid % 2 == 0 { 300 } else { 500 }) as u128;
         rep.count("requests_seen_by_scripted_replier", received);
         rep.count("replies_written_by_scripted_replier", sent);
         let mut sample_hist = vec![];
